@@ -330,6 +330,18 @@ def reentrant_strategy(tier):
         "reraise": st.booleans(),
         "gc_stress": st.booleans(),
     })
+    # focused family 2: several object-level handlers, one of which removes/adds handlers while a trait WITHOUT
+    # trait-level notifiers is being notified
+    surgery = st.sampled_from([["any_rem", 0], ["any_rem", 1], ["any_rem", 2], ["any_add"], ["otc_rem", "i", 0], ["gc"], ["raise"]])
+    hprog = st.sampled_from([["any_add"], ["any_add"], ["set", "e", 1], ["set", "e", 2], ["set", "t", 5], ["set", "x_1", 1], ["set", "x_2", 2],
+                             ["set", "inst", 3], ["set", "ev", 1], ["any_rem", 0], ["gc"], ["set", "a", 9]])
+    focused2 = st.fixed_dictionaries({
+        "script": st.fixed_dictionaries({"dyn": st.lists(surgery, min_size=1, max_size=3)}),
+        "instance_traits": st.just([]),
+        "prog": st.lists(hprog, min_size=3, max_size=12).map(lambda l: [["any_add"], ["any_add"], ["any_add"]] + l),
+        "reraise": st.booleans(),
+        "gc_stress": st.booleans(),
+    })
     general = st.fixed_dictionaries({
         "script": st.dictionaries(st.sampled_from(SITES), st.lists(act, min_size=1, max_size=3), max_size=5),
         "instance_traits": st.lists(st.sampled_from(["s", "a", "i", "l"]), max_size=2),
@@ -337,7 +349,7 @@ def reentrant_strategy(tier):
         "reraise": st.booleans(),
         "gc_stress": st.booleans(),
     })
-    return st.one_of(general, general, focused)
+    return st.one_of(general, general, focused, focused2)
 
 
 def reentrant_strategy_small(tier):
